@@ -201,9 +201,34 @@ func C12(run *mon.Run) {
 		if i%3 == 0 {
 			mask = 1<<(n-1) | r.IntN(1<<(n-1))&^1 // last cached, first not
 		}
+		// composition of the list: random scalars, or scalars related so that partial sums of the inputs'
+		// public keys coincide with the next one (equal keys, a key equal to the sum of the previous ones)
+		comp := []string{"random", "random", "duplicate-object", "duplicate-scalar", "sum-of-previous", "opposite-then-more"}[i%6]
+		if comp != "random" && i%2 == 0 {
+			mask = 1<<n - 1 // every input already has its public key computed
+		}
+		var ksList []*big.Int
 		for j := 0; j < n; j++ {
 			k := randScalar(r)
+			switch {
+			case comp == "duplicate-scalar" && j == 1, comp == "duplicate-object" && j == 1:
+				k = ksList[0]
+			case comp == "sum-of-previous" && j == n-1:
+				k = new(big.Int)
+				for _, x := range ksList {
+					k = ref.Fr.Add(k, x)
+				}
+			case comp == "opposite-then-more" && j == 1:
+				k = ref.Fr.Neg(ksList[0])
+			}
+			if k.Sign() == 0 {
+				k = big.NewInt(7)
+			}
+			ksList = append(ksList, k)
 			sk := skFromInt(k)
+			if comp == "duplicate-object" && j == 1 {
+				sk = sks[0]
+			}
 			if mask&(1<<j) != 0 {
 				_ = sk.PublicKey()
 			}
@@ -217,9 +242,9 @@ func C12(run *mon.Run) {
 		run.Eval(1)
 		run.Count("reference-public-keys", 1)
 		if wp := ref.EncodeG2(ref.E2.Mul(ref.G2Gen, sum), cv); !bytes.Equal(agg.PublicKey().Encode(), wp) || !agg.PublicKey().Equals(agg.PublicKey()) {
-			run.Violate("C12:public-key:bls:aggregated", "public key of an aggregated private key differs from [sum]g2", nil)
+			run.Violate("C12:public-key:bls:aggregated", fmt.Sprintf("public key of an aggregated private key differs from [sum]g2 (list composition %s, PublicKey() called beforehand on the inputs of mask %b)", comp, mask), map[string]any{"composition": comp, "mask": mask, "n": n})
 		}
-		run.Shape("bls|aggregated")
+		run.Shape("bls|aggregated|" + comp)
 	}
 	// shaped BLS scalars (powers of two and neighbours at limb / window boundaries, half-empty scalars):
 	// PublicKey() = [d]g2 by the reference, for each of them
